@@ -13,6 +13,9 @@ import (
 // openatRetryingOnEINTR is a wrapper around the openat system call that retries
 // on EINTR errors and returns on the first successful call or non-EINTR error.
 func openatRetryingOnEINTR(directory int, path string, flags int, mode uint32) (int, error) {
+	if err := verifFault("openat", path); err != nil {
+		return -1, err
+	}
 	for {
 		result, err := unix.Openat(directory, path, flags, mode)
 		if err == unix.EINTR {
@@ -62,6 +65,9 @@ func closeConsideringEINTR(file int) error {
 // retries on EINTR errors and returns on the first successful call or non-EINTR
 // error.
 func mkdiratRetryingOnEINTR(directory int, path string, mode uint32) error {
+	if err := verifFault("mkdirat", path); err != nil {
+		return err
+	}
 	for {
 		err := unix.Mkdirat(directory, path, mode)
 		if err == unix.EINTR {
@@ -75,6 +81,9 @@ func mkdiratRetryingOnEINTR(directory int, path string, mode uint32) error {
 // retries on EINTR errors and returns on the first successful call or non-EINTR
 // error.
 func renameatRetryingOnEINTR(oldDirectory int, oldPath string, newDirectory int, newPath string) error {
+	if err := verifFault("renameat", newPath); err != nil {
+		return err
+	}
 	for {
 		err := unix.Renameat(oldDirectory, oldPath, newDirectory, newPath)
 		if err == unix.EINTR {
@@ -88,6 +97,9 @@ func renameatRetryingOnEINTR(oldDirectory int, oldPath string, newDirectory int,
 // retries on EINTR errors and returns on the first successful call or non-EINTR
 // error.
 func unlinkatRetryingOnEINTR(directory int, path string, flags int) error {
+	if err := verifFault("unlinkat", path); err != nil {
+		return err
+	}
 	for {
 		err := unix.Unlinkat(directory, path, flags)
 		if err == unix.EINTR {
@@ -100,6 +112,9 @@ func unlinkatRetryingOnEINTR(directory int, path string, flags int) error {
 // fstatRetryingOnEINTR is a wrapper around the fstat system call that retries
 // on EINTR errors and returns on the first successful call or non-EINTR error.
 func fstatRetryingOnEINTR(file int, metadata *unix.Stat_t) error {
+	if err := verifFault("fstat", ""); err != nil {
+		return err
+	}
 	for {
 		err := unix.Fstat(file, metadata)
 		if err == unix.EINTR {
@@ -112,6 +127,9 @@ func fstatRetryingOnEINTR(file int, metadata *unix.Stat_t) error {
 // fchmodRetryingOnEINTR is a wrapper around the fchmod system call that retries
 // on EINTR errors and returns on the first successful call or non-EINTR error.
 func fchmodRetryingOnEINTR(file int, mode uint32) error {
+	if err := verifFault("fchmod", ""); err != nil {
+		return err
+	}
 	for {
 		err := unix.Fchmod(file, mode)
 		if err == unix.EINTR {
@@ -125,6 +143,9 @@ func fchmodRetryingOnEINTR(file int, mode uint32) error {
 // retries on EINTR errors and returns on the first successful call or non-EINTR
 // error.
 func fstatatRetryingOnEINTR(directory int, path string, metadata *unix.Stat_t, flags int) error {
+	if err := verifFault("fstatat", path); err != nil {
+		return err
+	}
 	for {
 		err := unix.Fstatat(directory, path, metadata, flags)
 		if err == unix.EINTR {
@@ -138,6 +159,9 @@ func fstatatRetryingOnEINTR(directory int, path string, metadata *unix.Stat_t, f
 // retries on EINTR errors and returns on the first successful call or non-EINTR
 // error.
 func fchmodatRetryingOnEINTR(directory int, path string, mode uint32, flags int) error {
+	if err := verifFault("fchmodat", path); err != nil {
+		return err
+	}
 	for {
 		err := unix.Fchmodat(directory, path, mode, flags)
 		if err == unix.EINTR {
@@ -151,6 +175,9 @@ func fchmodatRetryingOnEINTR(directory int, path string, mode uint32, flags int)
 // retries on EINTR errors and returns on the first successful call or non-EINTR
 // error.
 func fchownatRetryingOnEINTR(directory int, path string, uid int, gid int, flags int) error {
+	if err := verifFault("fchownat", path); err != nil {
+		return err
+	}
 	for {
 		err := unix.Fchownat(directory, path, uid, gid, flags)
 		if err == unix.EINTR {
@@ -164,6 +191,9 @@ func fchownatRetryingOnEINTR(directory int, path string, uid int, gid int, flags
 // retries on EINTR errors and returns on the first successful call or non-EINTR
 // error.
 func symlinkatRetryingOnEINTR(target string, directory int, path string) error {
+	if err := verifFault("symlinkat", path); err != nil {
+		return err
+	}
 	for {
 		err := syscall.Symlinkat(target, directory, path)
 		if err == unix.EINTR {
@@ -177,6 +207,9 @@ func symlinkatRetryingOnEINTR(target string, directory int, path string) error {
 // retries on EINTR errors and returns on the first successful call or non-EINTR
 // error.
 func readlinkatRetryingOnEINTR(directory int, path string, buffer []byte) (int, error) {
+	if err := verifFault("readlinkat", path); err != nil {
+		return 0, err
+	}
 	for {
 		result, err := syscall.Readlinkat(directory, path, buffer)
 		if err == unix.EINTR {
